@@ -30,7 +30,11 @@ func ruleLockField(c *chk.Ctx, owner string, fields ...*types.Var) {
 	for _, f := range pkgFuncs(c, c.M.Pkg) {
 		c.F.Walk(f, func(ins ssa.Instruction, st facts.State) {
 			fa, ok := ins.(*ssa.FieldAddr)
-			if !ok || !want[ir.FieldVar(fa)] || ir.FieldOwner(fa) != ownerType(c, owner) {
+			if !ok || !want[ir.FieldVar(fa)] {
+				return
+			}
+			// the field is declared by the owner, or by the helper type it was found in
+			if o := ir.FieldOwner(fa); o != ownerType(c, owner) && (o == nil || chk.PathOfVar(ownerType(c, owner), ir.FieldVar(fa)).Owner != o.Obj()) {
 				return
 			}
 			n++
@@ -195,7 +199,12 @@ func ruleUsedTable(c *chk.Ctx, d *dispatchModel) {
 				if !ok || ir.FieldVar(fa) != c.M.TErr {
 					return
 				}
-				for _, cd := range c.P.CondsWithin(st, d.checkAssign) {
+				conds := c.P.CondsWithin(st, d.checkAssign)
+				// (the look-up may sit in a one-line predicate of a table type: "is id reserved?")
+				if alts := expandPredicateHelpers(c, conds, 0); len(alts) == 1 {
+					conds = alts[0]
+				}
+				for _, cd := range conds {
 					if x, eq, ok := ir.NilCompare(cd.V); ok && x == ssa.Value(lookup) && eq != cd.Truth {
 						hitStores = true
 					}
@@ -287,6 +296,12 @@ func ruleReserveRelease(c *chk.Ctx, d *dispatchModel) {
 		ir.Instrs(g, func(i2 ssa.Instruction) {
 			if _, ok := isDeleteOn(i2, c.M.SUsed); ok {
 				found = true
+			}
+			// through a method of a table type
+			if ci, ok := i2.(ssa.CallInstruction); ok && !found {
+				if h := ci.Common().StaticCallee(); h != nil && h != g && deletes(h, depth+1) {
+					found = true
+				}
 			}
 		})
 		return found
